@@ -71,6 +71,11 @@ def gen_scenario(rng, max_procs=4, max_steps=3, p_quiet=0.25, allow_empty=True, 
         procs.append({'pid': [name], 'ts': gen_ts(rng, vars_), 'cond': gen_cond(rng, vars_, p_quiet),
                       'upd': gen_terms(rng, name, vars_, False, ts_terms),
                       'parallel': rng.random() < parallel})
+    if len(procs) >= 2 and rng.random() < 0.1:
+        # sleepers: several processes are quiet in the same passes (also when nothing else runs), then wake up
+        k = rng.choice([1, 1, 2])
+        for p in rng.sample(procs, rng.choice([2, len(procs)])):
+            p['cond'] = {'script': [False] * k + [True]}
     steps = []
     step_deps = []
     ns = rng.randrange(0, max_steps + 1) if steps_ok else 0
@@ -120,6 +125,11 @@ def gen_scenario(rng, max_procs=4, max_steps=3, p_quiet=0.25, allow_empty=True, 
     t0 = rng.choice([0, 0, 0, 0, 1, 3, 4, 10, -3])
     scn = {'procs': procs, 'steps': steps, 'stepDeps': step_deps, 'store': store,
            'unit': unit, 'prec': prec, 'calls': calls, 'emit_ticks': emit_ticks, 't0': t0}
+    if rng.random() < 0.12:
+        # the initial state also names a variable nobody declares (ignored), somewhere among the declared ones, and
+        # the declared defaults differ from the initial values
+        scn['surplus'] = rng.randrange(0, len(store))
+        scn['default_shift'] = rng.choice([1, 3])
     if emit_flags and rng.random() < 0.5:
         scn['noemit'] = [v for v, _ in store if rng.random() < 0.35]
         # the flags may also be set through the engine's `store_schema` argument: per variable, or for the whole
@@ -288,6 +298,13 @@ def build_engine(scn, ctx, parallel_ok=False, entry='parts'):
     _SPY['ctx'] = ctx
     vars_ = [v for v, _ in scn['store']]
     init = {v: x for v, x in scn['store']}
+    # `init` doubles as the defaults the probes declare; `initial` is the state the engine is given
+    initial = dict(init)
+    if scn.get('surplus') is not None:
+        items = list(init.items())
+        items.insert(min(scn['surplus'], len(items)), ('zz_undeclared', 99))
+        initial = dict(items)
+        init = {v: x + scn.get('default_shift', 0) for v, x in init.items()}
 
     # token updaters log applications in the parent process (not when workers are involved:
     # functions in a schema cannot travel through the pipe)
@@ -350,7 +367,7 @@ def build_engine(scn, ctx, parallel_ok=False, entry='parts'):
                   global_time_precision=scn['prec'], display_info=False, progress_bar=False,
                   initial_global_time=start_time(scn))
     eng = Engine(processes=processes, steps=steps, flow=flow, topology=topology,
-                 initial_state={'vars': init}, **kwargs)
+                 initial_state={'vars': initial}, **kwargs)
     ctx.engine = eng
     return eng
 
